@@ -169,6 +169,9 @@ func trunc(s string, n int) string {
 // CheckReads compares every store read made by any module execution anywhere
 // (tier1 linear or any tier2 job) with the sequential reference.
 func CheckReads(execs []native.Exec, ref *Ref) (out []Finding, compared int, execsSeen int) {
+	if ref.NoExecInfo {
+		return
+	}
 	for _, ex := range execs {
 		if ex.Tag == "ref" {
 			continue
@@ -487,7 +490,7 @@ func (c *Cluster) AuditCache(ref *Ref, pkg *gen.Pkg) (out []Finding, facts Audit
 				if rb == nil {
 					continue
 				}
-				if !rb.Executed[mod] {
+				if !rb.Executed[mod] && !ref.NoExecInfo {
 					out = append(out, finding("audit/output-item-for-unexecuted-block", "%s: item for block %d, on which the reference did not execute %s", f.Rel, it.BlockNum, mod))
 					bad = true
 					continue
@@ -500,12 +503,16 @@ func (c *Cluster) AuditCache(ref *Ref, pkg *gen.Pkg) (out []Finding, facts Audit
 					}
 					continue
 				}
+				if want, known := rb.MapOut[mod]; ref.NoExecInfo && !known {
+					_ = want
+					continue
+				}
 				if !bytes.Equal(it.Payload, rb.MapOut[mod]) {
 					out = append(out, finding("audit/output-payload-differs", "%s: block %d payload %q, sequential reference %q", f.Rel, it.BlockNum, trunc(string(it.Payload), 200), trunc(string(rb.MapOut[mod]), 200)))
 					bad = true
 				}
 			}
-			if bad {
+			if bad || ref.NoExecInfo {
 				continue
 			}
 			// completeness: every block of the range on which the reference executed the module with a kept output
@@ -558,7 +565,7 @@ func (c *Cluster) AuditCache(ref *Ref, pkg *gen.Pkg) (out []Finding, facts Audit
 					want[k] = append(want[k], n)
 				}
 			}
-			if end <= ref.Stop && fmt.Sprint(got) != fmt.Sprint(want) {
+			if end <= ref.Stop && !ref.NoExecInfo && fmt.Sprint(got) != fmt.Sprint(want) {
 				out = append(out, finding("audit/index-content-differs", "%s: index %v, sequential reference %v", f.Rel, got, want))
 			}
 		default:
